@@ -19,6 +19,7 @@
        out by the harness (`mfh prop C19`, TREE channel); they are reported as such in the evidence.
 -/
 import MF.Model.PosLang
+import MF.Proofs.PosLang
 import MF.Gen.Catalog
 import MF.Gen.PosDoc
 import MF.Gen.PosGo
@@ -42,5 +43,12 @@ theorem walk_go_eq_fields :
 theorem all_kinds_covered :
     Gen.posDoc.map (·.1) = Gen.kinds.map (·.name) ∧ Gen.posGo.map (·.1) = Gen.kinds.map (·.name) ∧
     Gen.walkGo.map (·.1) = Gen.kinds.map (·.name) ∧ Gen.walkGoNotes = [] := by decide +kernel
+
+theorem emit_correct (c : Ctx) (e : PosE) (v : Int) (h : (e.emit).eval c = some v) : e.eval c = some v :=
+  PosE.emit_correct c e v h
+
+/-- conversely, when no sub-term of the documented expression crashes, the emitted Go returns the same value -/
+theorem emit_complete (c : Ctx) (e : PosE) (v : Int) (h : e.eval c = some v) (hs : e.strict c = true) :
+    (e.emit).eval c = some v := PosE.emit_complete c e v h hs
 
 end MF.Props.C19
